@@ -20,22 +20,22 @@ def _run_in_thread(fn, *a):
     return out['r']
 
 def _task(args):
-    entry, prefix = args
+    entry, prefix, ww = args
     ip = _W['ip']
     t = time.time()
     try:
-        r = _run_in_thread(ip.run_path, entry, prefix)
+        r = _run_in_thread(ip.run_path, entry, prefix, ww)
     except RuntimeError as e:
         from .interp import PathResult
         r = PathResult(); r.status = 'unsupported'; r.detail = 'internal error: ' + str(e)[-1500:]; r.decisions = prefix
-    d = r.__dict__.copy(); d['covers'] = sorted(r.covers); d['calls'] = sorted(r.calls); d['wall'] = time.time() - t
+    d = r.__dict__.copy(); d['solver_stats'] = dict(ip.solver.stats); d['covers'] = sorted(r.covers); d['calls'] = sorted(r.calls); d['wall'] = time.time() - t; d['pid'] = os.getpid()
     return d
 
 class Exploration:
     def __init__(self, harness):
         self.harness = harness; self.paths = 0; self.status = {}; self.checks = {}; self.covers = set(); self.violations = []
         self.unsupported = {}; self.steps = 0; self.queries = 0; self.solver_time = 0.0; self.unknown_branches = 0; self.calls = set()
-        self.samples = []; self.exhausted = True; self.wall = 0.0; self.budget_hit = 0; self.tags = {}
+        self.samples = []; self.witnesses = []; self.exhausted = True; self.wall = 0.0; self.budget_hit = 0; self.tags = {}
     def add(self, d):
         st = d['status']; self.status[st] = self.status.get(st, 0) + 1
         if st != 'infeasible': self.paths += 1
@@ -49,7 +49,9 @@ class Exploration:
         if st == 'budget': self.budget_hit += 1
         self.steps += d['steps']; self.queries += d['queries']; self.solver_time += d['solver_time']; self.unknown_branches += d['unknown_branches']
         self.calls.update(d['calls'])
+        if d.get('solver_stats'): self.solver_stats = getattr(self, 'solver_stats', {}); self.solver_stats[d.get('pid', 0)] = d['solver_stats']
         for t in d['tags']: self.tags[t] = self.tags.get(t, 0) + 1
+        if d.get('witness') and len(self.witnesses) < 12: self.witnesses.append(d['witness'])
         if st == 'ok' and len(self.samples) < 6 and (d['tags'] or d['decisions']):
             self.samples.append({'tags': d['tags'], 'decisions': d['decisions'][:40], 'checks': [c[0] + ':' + c[1] for c in d['checks']][:12]})
 
@@ -70,7 +72,7 @@ def explore(pool, harness, label=None, max_paths=20000, deadline=None, seed=0):
     while work or inflight:
         while work and inflight < pool._processes * 2 and submitted < max_paths:
             p = work.pop()
-            pool.apply_async(_task, ((harness, p),), callback=cb, error_callback=ecb); inflight += 1; submitted += 1
+            pool.apply_async(_task, ((harness, p, submitted < 6 or submitted % 97 == 0),), callback=cb, error_callback=ecb); inflight += 1; submitted += 1
         if submitted >= max_paths and work and not inflight:
             ex.exhausted = False; break
         with lock:
